@@ -9,6 +9,8 @@
 //! * Node events: after `record_nodes(true)` the tree search appends one record per step of a node
 //!   (entry, early returns, moves made, child results, line updates, return) to a buffer that the
 //!   harness collects with `take_nodes()`.
+//! * Table events: after `record_table(true)` every probe, insert and new-search step of the tree search on its
+//!   transposition table is appended to a buffer (`take_table()`), with the real slot index and what was found / handed in.
 //! * Limits of a `go`: with `TCHERAN_VERIF_GOLIMITS=<file>` every `go` appends one line with what the
 //!   command carried and the limits the time strategy computed from it (`note_go`).
 //!
@@ -254,4 +256,83 @@ pub fn node(kind: &'static str, ply: u8, v: [i32; 3], moves: &[crate::chess::mov
         v,
         moves: moves.to_vec(),
     });
+}
+
+/// One operation of the search on its transposition table.
+#[derive(Clone, Debug)]
+pub struct TableEvent {
+    /// 0 probe, 1 insert, 2 new search
+    pub op: u8,
+    pub key: u64,
+    pub slot: usize,
+    pub slots: usize,
+    /// probe: whether data was returned; insert: true
+    pub some: bool,
+    /// bound, depth, age, eval of the data returned / handed in
+    pub v: [i32; 4],
+    pub mv: Option<crate::chess::moves::Move>,
+    /// the table's generation when the operation ran
+    pub generation: u8,
+}
+
+static RECORD_TABLE: std::sync::atomic::AtomicBool = std::sync::atomic::AtomicBool::new(false);
+static TABLE_EVENTS: Mutex<Vec<TableEvent>> = Mutex::new(Vec::new());
+
+pub fn record_table(on: bool) {
+    RECORD_TABLE.store(on, Ordering::SeqCst);
+}
+
+pub fn take_table() -> Vec<TableEvent> {
+    std::mem::take(&mut *TABLE_EVENTS.lock().unwrap())
+}
+
+type SearchTable = crate::engine::search::transposition::SearchTranspositionTable;
+type SearchData = crate::engine::search::transposition::SearchTranspositionTableData;
+
+fn table_event(op: u8, tt: &SearchTable, key: &crate::chess::zobrist::ZobristHash, data: Option<&SearchData>) {
+    TABLE_EVENTS.lock().unwrap().push(TableEvent {
+        op,
+        key: key.0,
+        slot: tt.verif_index(key),
+        slots: tt.verif_slots(),
+        some: data.is_some(),
+        v: data.map_or([-1; 4], |d| {
+            [d.bound.clone() as i32, i32::from(d.depth), i32::from(d.age), i32::from(d.eval.0)]
+        }),
+        mv: data.and_then(|d| d.best_move),
+        generation: tt.generation,
+    });
+}
+
+/// Called where the search probes its table: records what `get` returns for the key.
+#[inline]
+pub fn table_probe(tt: &SearchTable, key: &crate::chess::zobrist::ZobristHash) {
+    if RECORD_TABLE.load(Ordering::Relaxed) {
+        table_event(0, tt, key, tt.get(key));
+    }
+}
+
+/// Called right before the search hands `data` to `insert`.
+#[inline]
+pub fn table_insert(tt: &SearchTable, key: &crate::chess::zobrist::ZobristHash, data: &SearchData) {
+    if RECORD_TABLE.load(Ordering::Relaxed) {
+        table_event(1, tt, key, Some(data));
+    }
+}
+
+/// Called right after a search has announced itself to the table (`new_generation`).
+#[inline]
+pub fn table_new_search(tt: &SearchTable) {
+    if RECORD_TABLE.load(Ordering::Relaxed) {
+        TABLE_EVENTS.lock().unwrap().push(TableEvent {
+            op: 2,
+            key: 0,
+            slot: 0,
+            slots: tt.verif_slots(),
+            some: false,
+            v: [-1; 4],
+            mv: None,
+            generation: tt.generation,
+        });
+    }
 }
